@@ -169,7 +169,7 @@ PROPS = {
         "components": ["kafka", "batch"],
         "required_theorems": ["PgBifrost.Props.C14.kafka_written_iff_all_ok", "PgBifrost.Props.C14.kafka_failstop",
                               "PgBifrost.Props.C14.kafka_key_by_method", "PgBifrost.Props.C14.kafka_toobig_counted",
-                              "PgBifrost.Props.C14.kafka_methods_as_documented"],
+                              "PgBifrost.Props.C14.kafka_methods_as_documented", "PgBifrost.Props.C14.kafka_iteration_as_in_source"],
         "assumptions": ["sarama ProducerMessage.ByteSize(2) is an input measured on the real message",
                         "the uuid of a `batch`-method batch is an opaque per-batch value"],
     },
